@@ -3,7 +3,7 @@
    rebind_bound = BoundRoute.__init__ on an already bound route). *)
 From Coq Require Import List String Bool Arith.
 Import ListNotations.
-From ClasticV Require Import Base.Py Base.PyList Model.Dispatch Model.World Proofs.WorldProofs.
+From ClasticV Require Import Gen.ChainShape Gen.WorldShape Base.Py Base.PyList Model.Dispatch Model.World Proofs.WorldProofs.
 Local Open Scope string_scope.
 Local Open Scope list_scope.
 
@@ -81,3 +81,80 @@ Example C10_example :
   Ok [(mk_bound 5 "/pre/x/<y>" SRedirect None [mwA 1] [("ra", 20)] ["ra"; "y"] (RaArg "t") (RrFactory 1 "t") (Some 1) 7 [2; 1],
        [Some 1; Some 2])].
 Proof. vm_compute. reflexivity. Qed.
+
+(* obligation on the source: the control-flow skeletons of BoundRoute.__init__ / bind and SubApplication, regenerated from the source on every run.  The model is a
+   hand transcription of exactly these statements: any edit re-opens the correspondence question (the check then searches
+   for a failing input and reports what it finds) *)
+Theorem C10_binding_shape :
+  SK_BOUNDROUTE_INIT =
+  ["self.unbound_route = unbound_route = getattr(route, 'unbound_route', route)";
+   "self.bound_apps = getattr(route, 'bound_apps', []) + [app]";
+   "prefix = kwargs.pop('prefix', '')";
+   "rebind_render = kwargs.pop('rebind_render', True)";
+   "inherit_slashes = kwargs.pop('inherit_slashes', True)";
+   "rebind_render_error = kwargs.pop('rebind_render_error', True)";
+   "if kwargs";
+   "  raise TypeError('unexpected keyword args: %r' % kwargs.keys())";
+   "self.pattern = prefix + route.pattern";
+   "self.slash_mode = app.slash_mode if inherit_slashes else route.slash_mode";
+   "self.methods = route.methods";
+   "self.regex, self.converters = _compile_path_pattern(self.pattern, self.slash_mode)";
+   "self.path_args = self.converters.keys()";
+   "self.endpoint_args = get_arg_names(unbound_route.endpoint)";
+   "app_resources = getattr(app, 'resources', {})";
+   "self.resources = dict(app_resources)";
+   "self.resources.update(getattr(route, 'resources', {}))";
+   "app_mws = getattr(app, 'middlewares', [])";
+   "self.middlewares = tuple(merge_middlewares(getattr(route, 'middlewares', []), app_mws))";
+   "bind_render = rebind_render or route.render is _noop_render or (not callable(route.render))";
+   "render_factory_list = [getattr(ba, 'render_factory', None) for ba in self.bound_apps]";
+   "render_factory = first(reversed(render_factory_list), key=callable)";
+   "if callable(unbound_route.render)";
+   "  render = unbound_route.render";
+   "  render_factory = None";
+   "else";
+   "  if bind_render and render_factory and (unbound_route.render is not None)";
+   "    render = render_factory(unbound_route.render)";
+   "  else";
+   "    render = route.render if callable(route.render) else _noop_render";
+   "    render_factory = getattr(route, 'render_factory', None)";
+   "self.render_factory = render_factory";
+   "self.render = render";
+   "if rebind_render_error";
+   "  render_error = getattr(app.error_handler, 'render_error', None)";
+   "else";
+   "  render_error = route.render_error";
+   "if callable(render_error)";
+   "  check_render_error(render_error, self.resources)";
+   "self.render_error = render_error";
+   "src_provides_map = {'url': set(self.converters), 'builtins': set(RESERVED_ARGS), 'resources': set(self.resources)}";
+   "check_middlewares(self.middlewares, src_provides_map)";
+   "provided = set.union(*src_provides_map.values())";
+   "self._execute = make_middleware_chain(self.middlewares, unbound_route.endpoint, render, provided)";
+   "self._required_args = self._resolve_required_args()"] /\
+  SK_SUBAPPLICATION_INIT =
+  ["self.prefix = prefix.rstrip('/')";
+   "self.app = app";
+   "self.rebind_render = rebind_render";
+   "self.inherit_slashes = inherit_slashes"] /\
+  SK_SUBAPPLICATION_BIND_ALL =
+  ["ret = []";
+   "kwargs['prefix'] = self.prefix";
+   "kwargs.setdefault('rebind_render', self.rebind_render)";
+   "kwargs.setdefault('inherit_slashes', self.inherit_slashes)";
+   "for rt in self.app.routes";
+   "  if isinstance(rt, NullRoute)";
+   "    continue";
+   "  bound_rt = rt.bind(app, **kwargs)";
+   "  ret.append(bound_rt)";
+   "return ret"] /\
+  SK_SUBAPPLICATION_ITER_ROUTES =
+  ["for rt in self.app.iter_routes()";
+   "  if isinstance(rt, NullRoute)";
+   "    continue";
+   "  yield rt";
+   "return"] /\
+  SK_BOUNDROUTE_BIND =
+  ["return BoundRoute(self, app, **kwargs)"].
+Proof. repeat split; reflexivity. Qed.
+Print Assumptions C10_binding_shape.
